@@ -62,6 +62,39 @@ let wfactor_of_sexp = function
 let show_wfactor f =
   "(" ^ show_str f.Desugar.wf_name ^ " " ^ show_bool f.Desugar.wf_hidden ^ " " ^ show_bool f.Desugar.wf_derived ^ " "
   ^ show_natlist f.Desugar.wf_deps ^ " " ^ show_list (fun (n, w) -> "(" ^ show_str n ^ " " ^ show_nat w ^ ")") f.Desugar.wf_levels ^ ")"
+(* reference-semantics normal forms (same wire format as harness/docsem.py / drv_design.ml) *)
+let cellopt x = let n = int_of_sexp x in if n < 0 then None else Some (nat_of_int n)
+let sem_window_of_sexp = function
+  | L [deps; width; stride; start; table] ->
+    { Sem.w_deps = list_of_sexp nat_of_sexp deps; Sem.w_width = nat_of_sexp width; Sem.w_stride = nat_of_sexp stride;
+      Sem.w_start = nat_of_sexp start;
+      Sem.w_table = list_of_sexp (list_of_sexp (list_of_sexp (list_of_sexp cellopt))) table }
+  | _ -> failwith "window"
+let sem_factor_of_sexp = function
+  | L [nl; su; d] ->
+    { Sem.f_nlevels = nat_of_sexp nl; Sem.f_sustain = nat_of_sexp su;
+      Sem.f_derived = (match d with A "none" -> None | w -> Some (sem_window_of_sexp w)) }
+  | _ -> failwith "factor"
+let sem_crossing_of_sexp = function
+  | L [fs; first; chunk; mult] ->
+    { Sem.c_factors = list_of_sexp nat_of_sexp fs; Sem.c_first = nat_of_sexp first; Sem.c_chunk = nat_of_sexp chunk;
+      Sem.c_mult = list_of_sexp (function L [c; m] -> (list_of_sexp nat_of_sexp c, nat_of_sexp m) | _ -> failwith "mult") mult }
+  | _ -> failwith "crossing"
+(* constraints are only counted: the Nest normal form of Front/NestSem.v is for constraint-free blocks *)
+let simple_sem_of_sexp = function
+  | L [t; fs; cs; L ks] ->
+    let dummy = { Sem.k_kind = Sem.KExclude; Sem.k_factor = O; Sem.k_level = O; Sem.k_windows = [] } in
+    { Sem.s_trials = nat_of_sexp t; Sem.s_factors = list_of_sexp sem_factor_of_sexp fs;
+      Sem.s_crossings = list_of_sexp sem_crossing_of_sexp cs; Sem.s_constraints = Stdlib.List.map (fun _ -> dummy) ks }
+  | _ -> failwith "sem"
+let show_sem_factor f =
+  "(" ^ show_nat f.Sem.f_nlevels ^ " " ^ show_nat f.Sem.f_sustain ^ " " ^ (match f.Sem.f_derived with None -> "none" | Some _ -> "derived") ^ ")"
+let show_sem_crossing c =
+  "(" ^ show_natlist c.Sem.c_factors ^ " " ^ show_nat c.Sem.c_first ^ " " ^ show_nat c.Sem.c_chunk ^ " "
+  ^ show_list (fun (cb, m) -> "(" ^ show_natlist cb ^ " " ^ show_nat m ^ ")") c.Sem.c_mult ^ ")"
+let show_sem s =
+  "(" ^ show_nat s.Sem.s_trials ^ " " ^ show_list show_sem_factor s.Sem.s_factors ^ " " ^ show_list show_sem_crossing s.Sem.s_crossings
+  ^ " " ^ show_nat (nat_of_int (Stdlib.List.length s.Sem.s_constraints)) ^ ")"
 let show_wres = function
   | Trials.WOk ws -> show_zlist ws | Trials.WErrEqual -> "ErrEqual" | Trials.WErrDiv -> "ErrDiv" | Trials.WErrIndex -> "ErrIndex"
 let () =
@@ -89,6 +122,11 @@ let () =
   register "comboweights" (function [d; c] ->
     let design = list_of_sexp wfactor_of_sexp d in let c = list_of_sexp nat_of_sexp c in
     show_nat (Desugar.crossing_size_wo design c) ^ " " ^ show_natlist (Desugar.combo_weights design c)
+    | _ -> "!args");
+  (* (nestsem OUTER_SEM INNER_SEM) -> nestable_b  (normal form of the Nest) *)
+  register "nestsem" (function [o; i] ->
+    let so = simple_sem_of_sexp o in let si = simple_sem_of_sexp i in
+    show_bool (NestSem.nestable_b so si) ^ " " ^ show_sem (NestSem.nest_sem so si)
     | _ -> "!args");
   register "trreq" (function [f; fi; size] ->
     show_opt show_nat (Trials.trials_required (Wire_flat.flat_of_sexp f) (nat_of_sexp fi) (nat_of_sexp size)) | _ -> "!args");
